@@ -1,5 +1,5 @@
 """C09 - fit heuristics keep the any-fit invariant and their bin-count bounds."""
-from .. import core, scope, gen, models
+from .. import core, scope, gen, models, apalache
 from .common import *
 
 
@@ -16,6 +16,10 @@ def ffd_family(m):
 def run(ck):
     q = ck.quick()
     models.heur_mc(ck, ["ff", "bf", "ffd", "bfd"], ["FitStepInv"], maxn=4 if q else 5, cs=(4, 5, 6))
+    # unbounded values and capacities (Apalache, symbolic): the any-fit invariant is inductive for first-fit and best-fit over up to K bins
+    for K in ((3,) if q else (2, 3, 4)):
+        for rule, name in ((1, "first-fit"), (2, "best-fit")):
+            apalache.inductive(ck, "AnyFitInd", {"K": K, "Rule": rule}, "%s: any-fit invariant and feasibility, any values and capacity, up to %d bins" % (name, K))
     Q = scope.q_scope(ck, 5, 4, [4]) + scope.q_scope(ck, 5 if not q else 4, 6, [6]) + scope.q_scope(ck, 4 if q else 5, 12, [12], minv=1)
     Q = [g for g in Q if max(g["vals"]) <= g["C"]]
     ck.exhaustive = True
